@@ -125,6 +125,9 @@ type svcCmd struct {
 	topic  string
 	qos    int
 	issued uint64
+	// the call came back only after QueueTimeout: the command never entered the
+	// queue (its future is cancelled at once) and has no effect whatsoever
+	neverQueued bool
 	fut    *futRec
 	epoch  int // Start/Stop generation in which it was issued
 }
@@ -315,7 +318,9 @@ func runC17(t *testing.T, p *core.Plan) *core.Result {
 					cc := c
 					r.call("subscribe", func() {
 						cc.issued = rt.Tick()
+						t0 := time.Now()
 						f := svc.Subscribe(cc.topic, packet.QOS(cc.qos))
+						cc.neverQueued = time.Since(t0) >= svc.QueueTimeout
 						cc.fut = &futRec{kind: "sub", tag: cc.tag, fut: f}
 						r.watch(cc.fut)
 					})
@@ -324,7 +329,9 @@ func runC17(t *testing.T, p *core.Plan) *core.Result {
 					cc := c
 					r.call("unsubscribe", func() {
 						cc.issued = rt.Tick()
+						t0 := time.Now()
 						f := svc.Unsubscribe(cc.topic)
+						cc.neverQueued = time.Since(t0) >= svc.QueueTimeout
 						cc.fut = &futRec{kind: "unsub", tag: cc.tag, fut: f}
 						r.watch(cc.fut)
 					})
@@ -642,7 +649,7 @@ func resubLooksLike(q *packet.Subscribe, desired map[string]int) bool {
 func cancelledExplain(cmds []*svcCmd, desired, got map[string]int, seenOnWire map[int]bool, before uint64) bool {
 	var amb []*svcCmd
 	for _, c := range cmds {
-		if (c.kind == "sub" || c.kind == "unsub") && !seenOnWire[c.tag] && c.fut != nil && c.fut.resolved && c.fut.err != nil && c.fut.at < before {
+		if (c.kind == "sub" || c.kind == "unsub") && !c.neverQueued && !seenOnWire[c.tag] && c.fut != nil && c.fut.resolved && c.fut.err != nil && c.fut.at < before {
 			amb = append(amb, c)
 		}
 	}
@@ -678,7 +685,7 @@ func cancelledExplain(cmds []*svcCmd, desired, got map[string]int, seenOnWire ma
 func ambiguousExplains(cmds []*svcCmd, desired, got map[string]int, seenOnWire map[int]bool, before uint64) bool {
 	var amb []*svcCmd
 	for _, c := range cmds {
-		if (c.kind == "sub" || c.kind == "unsub") && !seenOnWire[c.tag] && c.issued != 0 && c.issued < before {
+		if (c.kind == "sub" || c.kind == "unsub") && !c.neverQueued && !seenOnWire[c.tag] && c.issued != 0 && c.issued < before {
 			amb = append(amb, c)
 		}
 	}
